@@ -99,9 +99,11 @@ class Extractor:
         if body.id in self.stack:
             raise Unsupported("recursive grammar at %s" % body.name)
         self.stack.append(body.id)
+        saved = self._lits
         try:
             t = self._extract(body)
         finally:
+            self._lits = saved
             self.stack.pop()
         self.cache[body.id] = t
         return t
@@ -158,6 +160,10 @@ class Extractor:
         raise Unsupported("operand is not a parser value")
 
     def _lit_arg(self, body, op):
+        l0 = op_local(op)
+        if l0 is not None and l0 in self._lits:
+            v = self._lits[l0]
+            return v.encode("latin-1") if all(ord(ch) < 256 for ch in v) else v.encode()
         v = const_value_of(self.prog, body, op)
         if v is None:
             c = op_const(op)
@@ -166,9 +172,46 @@ class Extractor:
             raise Unsupported("non-constant literal")
         return v.encode("latin-1") if all(ord(ch) < 256 for ch in v) else v.encode()
 
-    def _extract(self, body):
+    def _factory(self, body, t, env):
+        """`prefixed_line("ACK ", inner)`: a function of the crate that builds a parser from literals and parsers — its body is
+        read with the parameters bound to what this call passes."""
+        f = callee(t)
+        tid = (f.get("inst") or f["def"]) if f else None
+        cb = self.prog.bodies.get(tid)
+        if cb is None or cb.crate != body.crate or cb.kind not in ("Fn", "AssocFn") or not cb.local_ty(0).startswith("impl Fn"):
+            return None
+        if cb.id in self.stack:
+            raise Unsupported("recursive parser factory %s" % cb.name)
+        bind = {}
+        for i, a in enumerate(t["args"]):
+            try:
+                bind[i + 1] = ("term", self._term_of_operand(body, env, a))
+                continue
+            except Unsupported:
+                pass
+            l0 = op_local(a)
+            v = self._lits.get(l0) if l0 is not None and l0 in self._lits else const_value_of(self.prog, body, a)
+            if v is not None:
+                bind[i + 1] = ("lit", v)
+        self.stack.append(cb.id)
+        saved = self._lits
+        try:
+            return self._extract(cb, bind)
+        finally:
+            self._lits = saved
+            self.stack.pop()
+
+    _lits = {}
+
+    def _extract(self, body, bind=None):
         prog = self.prog
         env = {}
+        self._lits = {}
+        for l, (kind, v) in (bind or {}).items():
+            if kind == "term":
+                env[l] = v
+            else:
+                self._lits[l] = v
         g = Cfg(body)
         order = sorted(body.reachable(), key=lambda b: sum(1 for o in body.reachable() if o != b and g.dom(o, b)))
         apps = []     # (bb, term)
@@ -189,6 +232,8 @@ class Extractor:
                     l = op_local(rv["op"])
                     if l in env:
                         env[dst] = env[l]
+                    if l in self._lits:
+                        self._lits[dst] = self._lits[l]
                 elif rv["k"] == "ref" and rv["place"]["p"] in ([], ["*"]) and rv["place"]["l"] in env:
                     env[dst] = env[rv["place"]["l"]]
             t = blk["t"]
@@ -214,6 +259,13 @@ class Extractor:
                     l = op_local(A[0])
                     if l in env and env[l][0] != "tuple":
                         apps.append((bb, env[l]))
+                    continue
+                lits_here = self._lits
+                term = self._factory(body, t, env)
+                self._lits = lits_here
+                if term is not None:
+                    if dst is not None:
+                        env[dst] = term
                     continue
                 f = callee(t)
                 tid = (f.get("inst") or f["def"]) if f else None
